@@ -6,7 +6,19 @@
  * then defined here, the archive member is not linked a second time.
  * Same script and same canonical lines as ocaml/drv_c13.ml. */
 #define _GNU_SOURCE
+/* White-box part (optional, -DHWV_WHITEBOX): the current distances.c is compiled
+ * into this program so that its static functions can be called directly
+ * (rawrestrict / groups commands, container id of returned structures).  If that
+ * build breaks (a static signature changed), checks/c13.py falls back to the
+ * black-box build, which uses the public API and the private headers only. */
+#ifdef HWV_WHITEBOX
 #include "distances.c"
+#else
+#include "private/autogen/config.h"
+#include "hwloc.h"
+#include "private/private.h"
+#include "private/misc.h"
+#endif
 
 #include <stdio.h>
 #include <stdlib.h>
@@ -133,10 +145,14 @@ static void print_held(unsigned s)
   unsigned i;
   if (!p) { printf("H %u NULL\n", s); return; }
   if (p == GARBAGE) { printf("H %u GARBAGE\n", s); return; }
+#ifdef HWV_WHITEBOX
   {
     struct hwloc_distances_container_s *cont = HWLOC_DISTANCES_CONTAINER(p);
     printf("H %u id=%u", s, cont->id);
   }
+#else
+  printf("H %u id=?", s);
+#endif
   print_name(hwloc_distances_get_name(topo, p));
   printf(" nb=%u kind=%lu objs=[", p->nbobjs, p->kind);
   for (i = 0; i < p->nbobjs; i++) {
@@ -159,7 +175,7 @@ static void drop_user_state(void)
 {
   unsigned i;
   for (i = 0; i < NS; i++) release_slot(i);
-  for (i = 0; i < NH; i++) if (handles[i]) { hwloc_backend_distances_add__cancel(handles[i]); handles[i] = NULL; }
+  for (i = 0; i < NH; i++) if (handles[i]) { hwloc_distances_add_commit(topo, handles[i], ~0UL); handles[i] = NULL; }
 }
 
 static hwloc_topology_t new_topology(void)
@@ -210,7 +226,7 @@ int main(void)
       print_table(0);
     } else if (!strcmp(tok[0], "create") && ntok == 5) {
       unsigned h = atoi(tok[1]) % NH;
-      if (handles[h]) { hwloc_backend_distances_add__cancel(handles[h]); handles[h] = NULL; }
+      if (handles[h]) { hwloc_distances_add_commit(topo, handles[h], ~0UL); handles[h] = NULL; }
       handles[h] = hwloc_distances_add_create(topo, strcmp(tok[2], "-") ? tok[2] : NULL,
                                               strtoul(tok[3], NULL, 0), strtoul(tok[4], NULL, 0));
       prc(handles[h] ? 0 : -1);
@@ -323,6 +339,9 @@ int main(void)
     } else if (!strcmp(tok[0], "rawrestrict") && ntok >= 3) {
       /* rawrestrict <nb> <keep as 0/1 string> <nb*nb values>: the static function alone */
       unsigned nb = atoi(tok[1]), i, dis = 0;
+#ifndef HWV_WHITEBOX
+      printf("rc=nowhitebox\n"); (void)nb; (void)i; (void)dis;
+#else
       if (strlen(tok[2]) != nb || ntok != 3 + nb * nb) printf("rc=skip\n");
       else {
         static struct hwloc_obj dummy;
@@ -344,8 +363,12 @@ int main(void)
         printf("]\n");
         free(objs); free(idx); free(dt); free(vals);
       }
+#endif
     } else if (!strcmp(tok[0], "groups") && ntok >= 2) {
       unsigned nb = atoi(tok[1]), i, ng;
+#ifndef HWV_WHITEBOX
+      printf("rc=nowhitebox\n"); (void)nb; (void)i; (void)ng;
+#else
       if (ntok != 2 + nb * nb) printf("rc=skip\n");
       else {
         uint64_t *vals = malloc((nb * nb + 1) * sizeof(*vals));
@@ -359,6 +382,7 @@ int main(void)
         printf("]\n");
         free(vals); free(gids);
       }
+#endif
     } else {
       printf("badcmd\n");
       continue;
